@@ -17,9 +17,9 @@
      symbol character backslash-escaped) is accepted and names exactly k (C16_dot_spelling_parses,
      C16_member_addressable_dot, C16_absent_key_selects_nothing_dot), and the three spellings of a key behave
      identically on every object (C16_spellings_agree);
-   * at every depth: a path of any number of name steps in any mixture of the three spellings (chain_path) is
-     accepted, builds the chain of single-name steps and returns exactly the member reached through the nested
-     objects, or nothing when a name is missing on the way (C16_chain_parses, C16_member_addressable_at_depth,
+   * every node: a path of any number of name steps (in any mixture of the three spellings) and index steps
+     [digits] (chain_path) is accepted, builds the chain of single steps and returns exactly the value reached
+     through the nested objects and arrays, or nothing when a name or index is missing on the way (C16_chain_parses, C16_member_addressable_at_depth,
      C16_absent_at_depth);
    NOT proved from the text: names after .., in a filter operand, in a multi-name selector, and the short escapes \b \t \n \f \r a caller may also use.  These are covered by the correspondence check and the direct oracle: keys from all
    planes, three spellings, five path positions, against direct map lookup; the harness also sends key_path
@@ -54,7 +54,7 @@ Example C16_example : unescape_single (esc_single [97; 39; 92; 34; 10; 233]) = S
 Proof. vm_compute. reflexivity. Qed.
 
 (* ---------- from the path text (KeyParse.v, KeyAddr.v) ---------- *)
-From JP Require Import Peg Grammar Tree Actions Eval EvalInv1 EvalInv4 EvalTop KeyDefs KeyParse KeyAddr ChainParse ChainAddr.
+From JP Require Import Peg Grammar Tree Actions Eval EvalInv1 EvalInv4 EvalTop KeyDefs KeyParse KeyAddr DecFacts IdxParse ChainParse ChainAddr.
 Local Open Scope N_scope.
 Open Scope list_scope.
 
@@ -138,39 +138,47 @@ Example C16_dot_path_example :
   forallb dot_char [97; 46; 98; 32; 233; 92; 128512; 45; 95] = true.
 Proof. split; vm_compute; reflexivity. Qed.
 
-(* ---------- every depth (ChainParse.v, ChainAddr.v) ---------- *)
-(* a path of ANY number of name steps, each in any of the three spellings (KeyDefs.chain_path), is accepted and
-   builds the chain of single-name steps ... *)
+(* ---------- every node of the document (IdxParse.v, ChainParse.v, ChainAddr.v) ---------- *)
+(* a path of ANY number of steps — name steps in any of the three spellings and index steps [digits]
+   (KeyDefs.chain_path) — is accepted and builds the chain of single steps ... *)
 Theorem C16_chain_parses : forall cfg parse_float regex_ok s r, forallb step_ok (s :: r) = true ->
   parse_with cfg parse_float regex_ok jsonpath_grammar (chain_path (s :: r)) = ParseOk (chain_node cfg s r).
 Proof. exact parse_chain_path. Qed.
 Print Assumptions C16_chain_parses.
 
-(* ... which returns exactly the member reached by following the names through the nested objects (with its
-   location in accessor mode), and nothing when a name is missing on the way: every member at every depth is
-   addressable, and all spellings behave identically after another step *)
+(* ... which returns exactly the value reached by following the names and indexes through the nested objects and
+   arrays (nav_chain; with that location in accessor mode), and nothing when a name or index is missing on the
+   way: every member — every node — of a document is addressable by the path that spells its location, and all
+   spellings behave identically after other steps *)
 Theorem C16_member_addressable_at_depth : forall cfg parse_float regex_ok ffun afun regex_match,
   (forall f v w, small v -> ffun f v = Some w -> small w) ->
   (forall f l w, Forall small l -> afun f l = Some w -> small w) ->
   forall s r doc v st, forallb step_ok (s :: r) = true -> small doc -> ok st ->
-  lookup_chain doc (map step_key (s :: r)) = Some v ->
+  nav_chain doc (s :: r) = Some v ->
   exists t, parse_with cfg parse_float regex_ok jsonpath_grammar (chain_path (s :: r)) = ParseOk t /\
-            fst (eval_run ffun afun regex_match t doc st) = OOk [chain_result cfg (map step_key (s :: r)) v].
+            fst (eval_run ffun afun regex_match t doc st) = OOk [chain_result cfg (s :: r) v].
 Proof. exact chain_addressable. Qed.
 Print Assumptions C16_member_addressable_at_depth.
 Theorem C16_absent_at_depth : forall cfg parse_float regex_ok ffun afun regex_match,
   (forall f v w, small v -> ffun f v = Some w -> small w) ->
   (forall f l w, Forall small l -> afun f l = Some w -> small w) ->
   forall s r doc st, forallb step_ok (s :: r) = true -> small doc -> ok st ->
-  lookup_chain doc (map step_key (s :: r)) = None ->
+  nav_chain doc (s :: r) = None ->
   exists t e, parse_with cfg parse_float regex_ok jsonpath_grammar (chain_path (s :: r)) = ParseOk t /\
               fst (eval_run ffun afun regex_match t doc st) = OErr e.
 Proof. exact chain_absent. Qed.
 Print Assumptions C16_absent_at_depth.
 
+(* an index step written with the decimal digits of n (n < 2^63) is well formed and means element n *)
+Theorem C16_decimal_index_step : forall n, (Z.of_N n < 2 ^ 63)%Z ->
+  step_ok (SIdx (dec n)) = true /\ step_idx (dec n) = Z.of_N n.
+Proof. exact idx_step_ok. Qed.
+Print Assumptions C16_decimal_index_step.
+
 Example C16_chain_example :
-  chain_path [SBr 34 [97; 34]; SDot [98; 46]; SBr 39 []] = [36; 91; 34; 97; 92; 34; 34; 93; 46; 98; 92; 46; 91; 39; 39; 93] /\
-  forallb step_ok [SBr 34 [97; 34]; SDot [98; 46]; SBr 39 []] = true.
+  chain_path [SBr 34 [97; 34]; SIdx (dec 12); SDot [98; 46]; SBr 39 []] =
+    [36; 91; 34; 97; 92; 34; 34; 93; 91; 49; 50; 93; 46; 98; 92; 46; 91; 39; 39; 93] /\
+  forallb step_ok [SBr 34 [97; 34]; SIdx (dec 12); SDot [98; 46]; SBr 39 []] = true.
 Proof. split; vm_compute; reflexivity. Qed.
 
 (* non-vacuity: the key  a, double quote, backslash, single quote, LF, e-acute, U+1F600  in both spellings *)
